@@ -535,9 +535,18 @@ fn consume_phase<S: MdkStorageProvider + Sync>(st: &S, case: &Case, rep: &mut Ca
         let mode = round % 3;
         let v1 = 10 + 2 * round as u64;
         let v2 = v1 + 1;
-        st.save_group(record(G, v1)).map_err(|e| Failure::new("setup-failed", e.to_string()))?;
-        st.create_group_snapshot(&gid(G), name).map_err(|e| Failure::new("setup-failed", e.to_string()))?;
-        st.save_group(record(G, v2)).map_err(|e| Failure::new("setup-failed", e.to_string()))?;
+        // (sequential calls between the races: by the sequential specification they succeed; a
+        // failure here is what an earlier race left behind)
+        let after_race = |what: &str, e: String| Failure::new(if round == 0 { "setup-failed" } else { "call-failed-after-snapshot-race" }, format!("round {round}: {what} on a quiet storage, after the snapshot races of the earlier rounds, answers: {e}"));
+        st.save_group(record(G, v1)).map_err(|e| after_race("save_group", e.to_string()))?;
+        st.create_group_snapshot(&gid(G), name).map_err(|e| after_race("create_group_snapshot", e.to_string()))?;
+        st.save_group(record(G, v2)).map_err(|e| after_race("save_group", e.to_string()))?;
+        // ... and another group is not disturbed either
+        if round > 0 && round % 10 == 0 {
+            st.save_group(record(0, 1_000_000 + round as u64)).map_err(|e| after_race("save_group of another group", e.to_string()))?;
+            st.create_group_snapshot(&gid(0), "other").map_err(|e| after_race("create_group_snapshot of another group", e.to_string()))?;
+            st.rollback_group_to_snapshot(&gid(0), "other").map_err(|e| after_race("rollback of another group", e.to_string()))?;
+        }
         let barrier = Barrier::new(k);
         // thread 0 always rolls back; the others: mode 0 roll back too, mode 1 re-take, mode 2 release
         let tids: std::sync::Mutex<Vec<i32>> = std::sync::Mutex::new(vec![]);
